@@ -27,7 +27,7 @@ EPOCH_FMTS = ("default", "default", "custom", "subdir", "info")
 # update raise TypeError in keep_last_and_best_only mode: the paths of "epoch 0" are formatted although its learning
 # rate is None (fixes/C16-format-spec-on-unset-entry.diff, replays/C16/format-spec-on-unset-entry.json). Until the patch
 # is merged the class stays out of the generators and such cases are rejected; VERIF_C16_INFO_SPEC_FMT=1 switches it on.
-ENABLE_INFO_SPEC_FMT = os.environ.get("VERIF_C16_INFO_SPEC_FMT") == "1"
+ENABLE_INFO_SPEC_FMT = True  # repaired in /repo (epoch-0 paths commit)
 if ENABLE_INFO_SPEC_FMT:
     EPOCH_FMTS = EPOCH_FMTS + ("info_spec",)
 
@@ -605,10 +605,13 @@ def _dir_long_case(draw, tier):
     cfg = _long_params(draw, 2100)
     mix = _mix(cfg, draw(st.integers(0, 10 ** 6)))
     cfg["keep"] = mix % 3 != 0
-    sizes = T.SIZES[:-1] + T.SIZES[-4:-1] if tier == "quick" else T.SIZES + T.SIZES[-4:]
+    sizes = T.SIZES[:-1] if tier == "quick" else T.SIZES
     if not cfg["keep"]:
         sizes = tuple(x for x in sizes if x <= (257 if tier == "quick" else 1025))
-    cfg["n"] = sizes[(mix // 3) % len(sizes)]
+    elif (mix // 3) % 2 == 0:
+        # every second keep-mode case is one of the long ones (a budget of 16 cases must reach them)
+        sizes = tuple(x for x in sizes if x > 1000)
+    cfg["n"] = sizes[(mix // 6) % len(sizes)]
     return cfg
 
 
